@@ -314,6 +314,8 @@ def _thread_setup(q: int, caching: bool, pairs: List[Tuple[int, int]]) -> Tuple[
         docs[1], ctxs[1] = docs[0], ctxs[0]          # shared, read-only
 
     def fn(i: int) -> Any:
+        if i % 2:       # (the second thread comes in through the query iterator)
+            return lambda: [tuple(m.parts) for m in path.query(docs[i], filter_context=ctxs[i])]
         return lambda: [tuple(m.parts) for m in path.finditer(docs[i], filter_context=ctxs[i])]
 
     return path, docs, ctxs, [fn(i) for i in range(len(pairs))]
